@@ -37,7 +37,7 @@ CHECKS = {
         'injective hash model; one token-bearing attribute of a real form is made symbolic (L, then L\') and z3 decides L != L\' /\\ key(L) = key(L\'). '
         'unsat = the token separates cache entries for all values; sat = the key ignores it, then the admissible concrete values are decided against '
         'the real compile.generate (equal vf.hash(), different text = violation). Freshness: generator output today vs shipped assemblers.pyx/genericasm.pxi (byte comparison).',
-   note='Trusted: ideal (collision-free) hash model, z3, token templates (25 token kinds x contexts); freshness comparison is textual, not solver-decided.',
+   note='Trusted: hash model (injective on strings/tuples, CPython numeric hash on integral numbers so that hash(-1)==hash(-2) is visible), z3, token templates (30 token kinds x contexts, incl. tokens behind nested definitions); a token that the key only observes through a concretising conversion is decided by the real generate() on admissible value pairs; freshness comparison is textual, not solver-decided.',
    technique='non-interference query over real hashing code with injective hash model (z3) + ground truth via real code generator'),
  'C10': dict(
    category='other', design_ref='4/C10',
